@@ -160,15 +160,15 @@ func c10Spec() map[string]cellSpec {
 	markDispatch := func(method, args string) []string { return []string{method + "(" + args + ")"} }
 	_ = markDispatch
 	spec := map[string]cellSpec{
-		"BeginDocumentRule": {"OnBeginDocument": {"ctx.ChangeRule(versionRule)"}},
-		"VersionRule":       {"OnVersion": {"if($version!=$ctx.ExpectedVersion){reject}; ctx.ChangeRule(topLevelRule)"}},
-		"EndDocumentRule":   {"OnEndDocument": {"ctx.EndDocument()"}},
-		"TerminalRule":      {},
-		"TopLevelRule":      valuePosition("ctx.ChangeRule(endDocumentRule)", any, "", true, "", false),
-		"ListRule":          valuePosition("nop", any, "", true, "ctx.EndContainer(true)", true),
-		"RecordRule":        valuePosition("nop", any, "", true, "ctx.EndContainer(true)", true),
-		"MapValueRule":      valuePosition("ctx.ChangeRule(mapKeyRule)", any, "", true, "", true),
-		"EdgeSourceRule":    valuePosition("ctx.ChangeRule(edgeDescriptionRule)", []string{"AllowNonNull"}, "AllowNonNull", false, "", true),
+		"BeginDocumentRule":   {"OnBeginDocument": {"ctx.ChangeRule(versionRule)"}},
+		"VersionRule":         {"OnVersion": {"if($version!=$ctx.ExpectedVersion){reject}; ctx.ChangeRule(topLevelRule)"}},
+		"EndDocumentRule":     {"OnEndDocument": {"ctx.EndDocument()"}},
+		"TerminalRule":        {},
+		"TopLevelRule":        valuePosition("ctx.ChangeRule(endDocumentRule)", any, "", true, "", false),
+		"ListRule":            valuePosition("nop", any, "", true, "ctx.EndContainer(true)", true),
+		"RecordRule":          valuePosition("nop", any, "", true, "ctx.EndContainer(true)", true),
+		"MapValueRule":        valuePosition("ctx.ChangeRule(mapKeyRule)", any, "", true, "", true),
+		"EdgeSourceRule":      valuePosition("ctx.ChangeRule(edgeDescriptionRule)", []string{"AllowNonNull"}, "AllowNonNull", false, "", true),
 		"EdgeDescriptionRule": valuePosition("ctx.ChangeRule(edgeDestinationRule)", either, "AllowAny", true, "", true),
 		"EdgeDestinationRule": valuePosition("nop", either, "", false, "ctx.EndContainer(true)", true),
 		"NodeRule":            valuePosition("ctx.ChangeRule(listRule)", either, "AllowAny", true, "", true),
